@@ -18,8 +18,8 @@ PLANS = {
         "thorough": [("hist", 50000), ("threads", 6000), ("abort", 6000)],
     },
     "C13": {
-        "quick": [("hist", 800), ("codec", 500), ("threads", 250)],
-        "thorough": [("hist", 18000), ("codec", 10000), ("threads", 5000)],
+        "quick": [("hist", 800), ("codec", 500), ("threads", 250), ("conc_enum", 8)],
+        "thorough": [("hist", 18000), ("codec", 10000), ("threads", 5000), ("conc_enum", 100)],
     },
     "C14": {
         "quick": [("seq", 700), ("threads", 500), ("abort", 400), ("abort_enum", 10),
